@@ -270,11 +270,9 @@ Definition unlocated_b (d : dfile) : bool :=
 (* the generated-code comment stays one // line *)
 Definition gen_ok (gen : list N) : bool := forallb (fun c => negb (c =? 10) && negb (c =? 0)) gen.
 
-(* the sub-class of the byte-level theorem: unlocated descriptors (whose printed tokens hence contain no comment
-   pseudo token: computed here as well) whose rendered bytes pass the layout test against the model's tokens (a computable test; the file correspondence evaluates it on every case of the
+(* the sub-class of the byte-level theorem: unlocated descriptors (their printed tokens contain no comment
+   pseudo token: proofs/ProtoPrintBytesEraseProofs.v) whose rendered bytes pass the layout test against the model's tokens (a computable test; the file correspondence evaluates it on every case of the
    byte stream, so every descriptor printed there is inside the theorem) *)
 Definition bytes_modelled_b (gen : list N) (imp : xsymtab) (d : dfile) : bool :=
   unlocated_b d && gen_ok gen
-  && list_eqb token_eqb (print_file_tokens (to_symtab (dfile_symtab imp d)) d)
-                        (print_file_tokens_nc (to_symtab (dfile_symtab imp d)) d)
   && is_layout (print_file_tokens_nc (to_symtab (dfile_symtab imp d)) d) (render_bytes gen imp d).
